@@ -215,6 +215,10 @@ type Once struct {
 	owner *sched
 	state int // 0 fresh, 1 running, 2 done
 	real  sync.Once
+	// spawned: the function started goroutines when it ran inside a controlled execution. Those goroutines end with
+	// that execution, so the next execution runs the function again (as the first call in a fresh process would):
+	// a helper pool built on first use is rebuilt for every execution instead of being left without helpers.
+	spawned bool
 }
 
 func (o *Once) stateHash() uint64 { return uint64(o.id)<<32 | uint64(o.state) }
@@ -229,9 +233,10 @@ func (o *Once) Do(f func()) {
 		// a package-level Once keeps its "done" state across executions (as it would across calls),
 		// but an execution aborted while inside f must not leave it stuck in "running"
 		o.owner = s
-		if o.state == 1 {
+		if o.state == 1 || (o.state == 2 && o.spawned) {
 			o.state = 0
 		}
+		o.spawned = false
 		o.id = s.newObj(o)
 	}
 	s.point(&pendingOp{kind: opOnce, obj: o.id, enabled: func() bool { return o.state != 1 }})
@@ -239,7 +244,17 @@ func (o *Once) Do(f func()) {
 		return
 	}
 	o.state = 1
-	defer func() { o.state = 2 }()
+	t := s.running
+	outer := t != nil && t.inOnce == nil
+	if outer {
+		t.inOnce = o
+	}
+	defer func() {
+		o.state = 2
+		if outer {
+			t.inOnce = nil
+		}
+	}()
 	f()
 }
 
